@@ -26,6 +26,7 @@ CONSTANTS
   AllowNested = FALSE
   OthersCall = "never"
   KeepPagesWritable = FALSE
+  TrampFlushed = TRUE
   UserCalls = FALSE
   MaxUserCalls = 0
   InstallKinds = {"jump"}
